@@ -45,10 +45,10 @@ func NewRoachDevice(host string, rate float64) (dev *RoachDevice, err error) {
 		return nil, err
 	}
 	conn, err := net.ListenUDP("udp", raddr)
-	conn.SetReadBuffer(100000000)
 	if err != nil {
 		return nil, err
 	}
+	conn.SetReadBuffer(100000000)
 	dev.conn = conn
 	return dev, nil
 }
